@@ -15,6 +15,7 @@ RULES = {
     "R-14.1": "the ordered ctx.update() inputs of _digest equal the RFC 8945 4.3 composition under every valuation of (first, request MAC present); multi-message continuation starts with the length-prefixed prior MAC",
     "R-14.2": "validate digests the message with ARCOUNT-1 cut at the TSIG, performs error/time/key/algorithm checks before the MAC check, and every normal return is dominated by ctx.verify(rdata.mac); HMAC verify is a constant-time comparison of the (possibly truncated) digest",
     "R-14.3": "HMACTSig._hashes and mac_sizes agree (keys, hash function per algorithm name, digest or truncated size)",
+    "R-14.8": "the TSIG record is read exactly: the 48-bit time, the 16-bit fudge/sizes and the MAC come through the bounded, exact-width Parser reads (rule of C04 R-04.5, run here directly)",
     "R-14.7": "every field of the TSIG RR that the digest replaces by a constant is pinned by the reader: _digest packs TTL 0 (RFC 8945 4.2: the TTL MUST be 0), so the wire reader refuses a TSIG RR whose TTL is not 0 before it validates - otherwise 32 bits of the signed message can be altered without the MAC noticing",
     "R-14.6": "every transport verifies the response against the MAC of the query it sent: the request_mac handed to the response parser is the query's `.mac` (or the function's own request_mac parameter), never `.request_mac` of the query (b'' for a query); a TSIG-keyed transfer ends with a signed message",
     "R-14.5": "every signer entry point hands the request MAC (and, for multi-message signing, the running context) it was given to dns.tsig.sign; an unsigned intermediate message of a multi-message sequence is digested whole (RFC 8945 5.3.1)",
@@ -338,6 +339,8 @@ def run(model, rep, tier):
         rep.check(okk, "R-14.7", gs7.qualname, where(gs7, vals[0].ast), "a TSIG RR with a non-zero TTL is refused before validation (the digest assumes 0)",
                   "_digest packs a constant 0 for the TSIG TTL, and nothing refuses a TSIG RR whose wire TTL is not 0 before dns.tsig.validate: flipping any of the 32 TTL bits of a signed "
                   "message still validates", stmt="tsig-ttl")
+    from rules.c04 import check_parser_reads
+    check_parser_reads(model, rep, "R-14.8")
     rep.meta["explanation"] = (
         "Ordered-effect projection of dns.tsig._digest: for each valuation of (first, request MAC present) the feasible CFG paths are walked and the arguments of ctx.update are "
         "flattened into typed tokens (struct formats expanded, concatenations split, locals substituted) and compared with the RFC 8945 4.3 table held in the checker - an independent "
